@@ -14,26 +14,17 @@ Vocabulary (defined in the lemma files, entry-wise):
 * `Tk.ascList Us d`        — the list `(0, Us[0]), …, (d-1, Us[d-1])`;
 * `Tk.tail eig r`          — the sum of `eig[r:]` (the eigenvalues discarded when `r` are kept);
 * `Tk.EighContract eigh`   — on every symmetric `n × n` matrix `Z`, `eigh` returns `n` values `D` and an
-                             `n × n` matrix `V` with orthonormal columns and `Z V = V diag(D)`.
+                             `n × n` matrix `V` with orthonormal columns and `Z V = V diag(D)`;
+* `Tk.NvecsContract nvecs` — `W.nvecs(n, r)` is a `shape[n] × r` matrix with orthonormal columns (`r ≤ shape[n]`);
+* `Tk.NvecsLeading nvecs`  — … whose columns are, up to sign, eigenvectors of the `r` largest eigenvalues of
+                             the Gram matrix of the mode-`n` unfolding;
+* `Tk.KyFan`               — Ky Fan's maximum principle (a hypothesis of the monotonicity theorem only).
 -/
-import PyttbModel.Lemmas.HosvdThm
+import PyttbModel.Lemmas.TuckerAlsThm
 namespace Pyttb
 open Tk
 
 /-! ### HOSVD -/
-
-theorem hosvd_run_of_ok {eigh : Nat → Mat ℝ → List ℝ × Mat ℝ} {X : Dense ℝ} {tol : ℝ}
-    {dimorder : Option (List Nat)} {seq : Bool} {ranks : Option (List Nat)} {T : Ttensor ℝ}
-    (h : hosvd realOps eigh X tol dimorder seq ranks = .ok T) :
-    ∃ tr, hosvdRun realOps eigh X tol dimorder seq ranks = .ok (T, tr) := by
-  unfold hosvd at h
-  cases hr : hosvdRun realOps eigh X tol dimorder seq ranks with
-  | error e => rw [hr] at h; cases h
-  | ok p =>
-    rw [hr] at h
-    obtain ⟨T', tr⟩ := p
-    cases h
-    exact ⟨tr, rfl⟩
 
 /-- The factor matrices returned by `hosvd` have orthonormal columns: factor `n` has as many rows
 as mode `n` of the data and as many columns as mode `n` of the core, and its columns are
@@ -183,5 +174,109 @@ theorem C10_hosvd_error_bound (eigh : Nat → Mat ℝ → List ℝ × Mat ℝ) (
     positivity
   · have : (X.shape.length : ℝ) ≠ 0 := by exact_mod_cast hd
     rw [mul_div_cancel₀ _ this]
+
+/-! ### Tucker-ALS -/
+
+/-- `tucker_als` returns orthonormal factors of the requested ranks: factor `n` has as many rows as
+mode `n` of the data, exactly `rank[n]` columns (an integer rank is used for every mode), the
+columns are orthonormal, and the core has extent `rank[n]` in mode `n` — for every initial guess
+(random under any draws, leading vectors, given list), every mode order, every stop tolerance
+and iteration limit. -/
+theorem C10_tucker_orthonormal (nvecs : Nat → Dense ℝ → Nat → Nat → Mat ℝ) (hC : NvecsContract nvecs)
+    (uniform : Nat → Nat → Nat → Mat ℝ) (X : Dense ℝ) (hX : X.WF) (rank : List Nat)
+    (hR : ∀ n < X.shape.length, (parseRank rank X.shape.length).getD n 0 ≤ X.shape.getD n 0)
+    (stoptol : ℝ) (maxiters : Int) (dimorder : Option (List Nat)) (init : Init ℝ) (out : TaOut ℝ)
+    (h : tuckerAls realOps nvecs uniform X rank stoptol maxiters dimorder init = .ok out)
+    (n : Nat) (hn : n < X.shape.length) :
+    out.solution.factors.length = X.shape.length ∧
+    OrthoCols (out.solution.factors.getD n []) (X.shape.getD n 0) ((parseRank rank X.shape.length).getD n 0) ∧
+    out.solution.core.shape.getD n 0 = (parseRank rank X.shape.length).getD n 0 := by
+  obtain ⟨recs, hr⟩ := tuckerAls_run_of_ok h
+  obtain ⟨_, _, r, _, hrec, hsol, _⟩ := tucker_facts hC hX hR hr
+  rw [hsol]
+  refine ⟨hrec.lenF, hrec.ortho n hn, ?_⟩
+  simp only
+  rw [hrec.core, ttmFold_shape]
+  rw [coreShape_getD_mem _ _ n (r.factors.getD n []) (ascList_fst_nodup _ _)
+    (by simp only [ascList, List.mem_map, List.mem_range]; exact ⟨n, hn, rfl⟩) hn]
+  exact (hrec.ortho n hn).ncols
+
+/-- The core returned by `tucker_als` is the data multiplied in every mode by the transposed
+factor (although the code computes it as `Utilde ×ₙ Uₙᵀ` for the LAST mode `n` of `dimorder`,
+`Utilde` being the data multiplied in all other modes). -/
+theorem C10_tucker_core (nvecs : Nat → Dense ℝ → Nat → Nat → Mat ℝ) (hC : NvecsContract nvecs)
+    (uniform : Nat → Nat → Nat → Mat ℝ) (X : Dense ℝ) (hX : X.WF) (rank : List Nat)
+    (hR : ∀ n < X.shape.length, (parseRank rank X.shape.length).getD n 0 ≤ X.shape.getD n 0)
+    (stoptol : ℝ) (maxiters : Int) (dimorder : Option (List Nat)) (init : Init ℝ) (out : TaOut ℝ)
+    (h : tuckerAls realOps nvecs uniform X rank stoptol maxiters dimorder init = .ok out) :
+    out.solution.core = ttmFold X (ascList out.solution.factors X.shape.length) true := by
+  obtain ⟨recs, hr⟩ := tuckerAls_run_of_ok h
+  obtain ⟨_, _, r, _, hrec, hsol, _⟩ := tucker_facts hC hX hR hr
+  rw [hsol]
+  exact hrec.core
+
+/-- The reported fit is the recomputed one: with `F = T.full()` and `E = X − F`,
+`normresidual = ‖E‖` and `fit = 1 − ‖E‖ / ‖X‖` (norms as square roots of sums of squares).  The
+code computes `sqrt(|‖X‖² − ‖G‖²|)`; for orthonormal factors and the projected core
+`‖X − T‖² = ‖X‖² − ‖G‖² ≥ 0`. -/
+theorem C10_tucker_fit (nvecs : Nat → Dense ℝ → Nat → Nat → Mat ℝ) (hC : NvecsContract nvecs)
+    (uniform : Nat → Nat → Nat → Mat ℝ) (X : Dense ℝ) (hX : X.WF) (rank : List Nat)
+    (hR : ∀ n < X.shape.length, (parseRank rank X.shape.length).getD n 0 ≤ X.shape.getD n 0)
+    (stoptol : ℝ) (maxiters : Int) (dimorder : Option (List Nat)) (init : Init ℝ) (out : TaOut ℝ)
+    (h : tuckerAls realOps nvecs uniform X rank stoptol maxiters dimorder init = .ok out)
+    (F E : Dense ℝ) (hfull : tfull out.solution = .ok F) (hdiff : dsub X F = .ok E) :
+    out.normresidual = Real.sqrt (normSq E) ∧
+    out.fit = 1 - Real.sqrt (normSq E) / Real.sqrt (normSq X) := by
+  obtain ⟨recs, hr⟩ := tuckerAls_run_of_ok h
+  obtain ⟨_, _, r, _, hrec, hsol, _, hnr, hfit, _⟩ := tucker_facts hC hX hR hr
+  rw [hsol, hrec.core] at hfull
+  have herr := tucker_err_eq X hX r.factors hrec.ortho' hfull hdiff
+  rw [← hrec.core] at herr
+  obtain ⟨v1, v2, _⟩ := hrec.values hX
+  rw [hnr, hfit, v1, v2, herr]
+  exact ⟨rfl, rfl⟩
+
+/-- The iteration limit is respected: the number of executed iterations is at least one and at
+most `maxiters`, and the reported `iters` is the 0-based index of the last executed iteration
+(number of iterations minus one, as the code reports it). -/
+theorem C10_tucker_iters_le (nvecs : Nat → Dense ℝ → Nat → Nat → Mat ℝ) (hC : NvecsContract nvecs)
+    (uniform : Nat → Nat → Nat → Mat ℝ) (X : Dense ℝ) (hX : X.WF) (rank : List Nat)
+    (hR : ∀ n < X.shape.length, (parseRank rank X.shape.length).getD n 0 ≤ X.shape.getD n 0)
+    (stoptol : ℝ) (maxiters : Int) (dimorder : Option (List Nat)) (init : Init ℝ) (out : TaOut ℝ)
+    (recs : List (IterRec ℝ))
+    (h : tuckerAlsRun realOps nvecs uniform X rank stoptol maxiters dimorder init = .ok (out, recs)) :
+    1 ≤ recs.length ∧ (recs.length : Int) ≤ maxiters ∧ out.iters + 1 = recs.length := by
+  obtain ⟨⟨Uinit, hI⟩, hpos, r, _, _, _, hiters, _, _, hlen⟩ := tucker_facts hC hX hR h
+  have h1 := hI.len
+  refine ⟨by omega, by omega, ?_⟩
+  rw [hiters]
+  simp only [Gen.itersReported]
+  omega
+
+/-- Monotonicity of the fit, PARTIAL: proved modulo Ky Fan's maximum principle, which enters as
+the explicit hypothesis `hK : KyFan` (it is a true theorem of matrix analysis that is not
+proved in this development), and under the stronger contract `NvecsLeading` of the `nvecs`
+service (its columns are, up to sign, eigenvectors of the leading eigenvalues).  Under these
+hypotheses the fits of the executed iterations form a non-decreasing sequence (and so do the
+squared core norms), and the returned fit is the last of them. -/
+theorem C10_tucker_fit_monotone_partial (nvecs : Nat → Dense ℝ → Nat → Nat → Mat ℝ) (hC : NvecsContract nvecs)
+    (hL : NvecsLeading nvecs) (hK : KyFan)
+    (uniform : Nat → Nat → Nat → Mat ℝ) (X : Dense ℝ) (hX : X.WF) (rank : List Nat)
+    (hR : ∀ n < X.shape.length, (parseRank rank X.shape.length).getD n 0 ≤ X.shape.getD n 0)
+    (stoptol : ℝ) (maxiters : Int) (dimorder : Option (List Nat)) (init : Init ℝ) (out : TaOut ℝ)
+    (recs : List (IterRec ℝ))
+    (h : tuckerAlsRun realOps nvecs uniform X rank stoptol maxiters dimorder init = .ok (out, recs)) :
+    (recs.map fun r => r.fit).Pairwise (· ≤ ·) ∧ (recs.map fun r => normSq r.core).Pairwise (· ≤ ·) ∧
+    (recs.map fun r => r.fit).getLast? = some out.fit := by
+  obtain ⟨⟨Uinit, hI⟩, _, r, hlast, _, _, _, _, hfit, _⟩ := tucker_facts hC hX hR h
+  have hs := hI.sorted hL hK
+  refine ⟨?_, hs, by rw [List.getLast?_map, hlast, hfit]; rfl⟩
+  rw [List.pairwise_map] at hs ⊢
+  refine List.Pairwise.imp_of_mem ?_ hs
+  intro a b ha hb hab
+  obtain ⟨_, va, _⟩ := (hI.each a ha).values hX
+  obtain ⟨_, vb, lb⟩ := (hI.each b hb).values hX
+  rw [va, vb]
+  exact fit_mono _ _ _ hab lb
 
 end Pyttb
